@@ -220,7 +220,7 @@ def check_trajectory(r, case):
             plans.append(([j1, j2], [s0, s1, s2]))
     for plan, states in plans:
         lines = [render(j) for j in plan]
-        exp = MultiAgentTrajectoryExporter(w.D)
+        exp = w.__dict__.setdefault("_ma_exporter", MultiAgentTrajectoryExporter(w.D))  # one exporter for all plans
         tr = guard(lambda: exp.parse_plan(parse_problem(w.ptext, w.D), action_sequence=list(lines)))
         r.count("histories")
         if isinstance(tr, Raised) or len(tr) != len(plan):
